@@ -1,4 +1,281 @@
-"""Translator + introspection extractor: regenerates lean/TealerModel/Generated/*.lean from /repo (DESIGN 4.1)."""
+"""Translator + introspection extractor: regenerates lean/TealerModel/Generated/*.lean from /repo on every run
+(DESIGN §4.1).  Files are rewritten only when their content changes (so lake rebuilds only then).
+
+* OpTable.lean   — for every opcode sample line (the repository's parsing corpus + the immediate families):
+                   what the REAL parse_line builds: class, printed form, stack_pop_size, stack_push_size, version, mode.
+* Consts.lean    — constants and enum tables read from the imported modules.
+* Leaf.lean      — leaf decision functions translated from the Python AST (fail-closed).
+"""
+import ast, inspect, io, contextlib, os, sys, logging
+logging.disable(logging.CRITICAL)
+HERE = os.path.dirname(os.path.abspath(__file__))
+ROOT = os.path.abspath(os.path.join(HERE, '..'))
+GEN = os.path.join(ROOT, 'lean', 'TealerModel', 'Generated')
+sys.path.insert(0, HERE)
+
+
+def lean_str(s):
+    return '"' + s.replace('\\', '\\\\').replace('"', '\\"').replace('\n', '\\n') + '"'
+
+
+def write_if_changed(path, text):
+    os.makedirs(os.path.dirname(path), exist_ok=True)
+    old = open(path).read() if os.path.exists(path) else None
+    if old != text:
+        tmp = path + '.tmp'
+        with open(tmp, 'w') as f:
+            f.write(text)
+        os.replace(tmp, path)
+        return True
+    return False
+
+
+FAMILIES = {
+    'dig': range(0, 256), 'cover': range(0, 256), 'uncover': range(0, 256), 'bury': range(1, 256),
+    'popn': range(0, 256), 'dupn': range(0, 256), 'frame_dig': range(-8, 9), 'frame_bury': range(-8, 9),
+}
+
+
+def sample_lines():
+    import gen
+    lines = list(dict.fromkeys(gen.opcode_pool()))
+    fam = []
+    for op, rng in FAMILIES.items():
+        for n in rng:
+            fam.append(f"{op} {n}")
+    for k in range(0, 9):
+        fam.append("pushints " + " ".join(str(i) for i in range(k)) if k else "pushints")
+        fam.append("pushbytess " + " ".join(f"0x0{i}" for i in range(k)) if k else "pushbytess")
+        fam.append("switch " + " ".join(f"l{i}" for i in range(k)) if k else "switch")
+        fam.append("match " + " ".join(f"l{i}" for i in range(k)) if k else "match")
+    for a in range(0, 4):
+        for r in range(0, 4):
+            fam.append(f"proto {a} {r}")
+    ctl = ["b l", "bz l", "bnz l", "callsub l", "retsub", "err", "return", "assert", "intcblock 1 2 3", "bytecblock 0x01 0x02",
+           "intc 0", "intc_0", "intc_1", "intc_2", "intc_3", "bytec 0", "bytec_0", "bytec_1", "bytec_2", "bytec_3", "l:", "#pragma version 8"]
+    return lines, fam, ctl
+
+
+def op_rows():
+    from tealer.teal.instructions.parse_instruction import parse_line
+    lines, fam, ctl = sample_lines()
+    rows, errors = [], []
+    for group, ls in (('corpus', lines), ('family', fam), ('control', ctl)):
+        for l in ls:
+            try:
+                buf = io.StringIO()
+                with contextlib.redirect_stdout(buf), contextlib.redirect_stderr(buf):
+                    i = parse_line(l)
+                if i is None:
+                    continue
+                mode = {'Any': 2, 'Stateless': 0, 'Stateful': 1}.get(str(i.mode), 9)
+                rows.append((group, l, type(i).__name__, str(i), int(i.stack_pop_size), int(i.stack_push_size), int(i.version), mode))
+            except BaseException as e:  # noqa
+                errors.append(f"parse_line({l!r}) raised {type(e).__name__}")
+    return rows, errors
+
+
+CHUNK = 40
+
+def render_table(ns, rows, header):
+    """rows of the non-family samples, in chunks (a single 2000-element literal exceeds Lean's recursion depth)"""
+    out = [header, f"namespace {ns}", ""]
+    names = []
+    for k in range(0, len(rows), CHUNK):
+        nm = f"opTable{k // CHUNK}"
+        names.append(nm)
+        out.append(f"def {nm} : List (String × String × String × Nat × Nat × Nat × Nat) := [")
+        out.append(",\n".join(f"  ({lean_str(l)}, {lean_str(cls)}, {lean_str(txt)}, {po}, {pu}, {ver}, {mode})" for (g, l, cls, txt, po, pu, ver, mode) in rows[k:k + CHUNK]))
+        out.append("]")
+        out.append("")
+    out.append("/-- (sample line, class, printed form, pops, pushes, version, mode) -/")
+    out.append("def opTableChunks : List (List (String × String × String × Nat × Nat × Nat × Nat)) := [" + ", ".join(names) + "]")
+    out.append("def opTable : List (String × String × String × Nat × Nat × Nat × Nat) := opTableChunks.flatten")
+    out.append("")
+    return out
+
+
+def gen_optable():
+    rows, errors = op_rows()
+    errors = [e for e in errors if 'label: add' not in e]
+    plain = [r for r in rows if r[0] != 'family']
+    fam = [r for r in rows if r[0] == 'family']
+    out = render_table("Tealer.Generated", plain, "/- REGENERATED on every run by harness/extract.py from /repo (do not edit). -/")
+    out.append("/-- immediate families: (opcode, immediate or operand count, second immediate, pops, pushes) as built by the real parse_line -/")
+    body = []
+    for (g, l, cls, txt, po, pu, ver, mode) in fam:
+        w = l.split()
+        op = w[0]
+        if op in ('pushints', 'pushbytess', 'switch', 'match'):
+            a, b = len(w) - 1, 0
+        elif op == 'proto':
+            a, b = int(w[1]), int(w[2])
+        else:
+            a, b = int(w[1]), 0
+        body.append(f"  ({lean_str(op)}, {a}, {b}, {po}, {pu})")
+    fnames = []
+    for k in range(0, len(body), 64):
+        nm = f"families{k // 64}"
+        fnames.append(nm)
+        out.append(f"def {nm} : List (String × Int × Nat × Nat × Nat) := [")
+        out.append(",\n".join(body[k:k + 64]))
+        out.append("]")
+    out.append("def familiesChunks : List (List (String × Int × Nat × Nat × Nat)) := [" + ", ".join(fnames) + "]")
+    out.append("def families : List (String × Int × Nat × Nat × Nat) := familiesChunks.flatten")
+    out += ["", "end Tealer.Generated", ""]
+    return "\n".join(out), rows, errors
+
+
+def gen_consts():
+    from tealer.utils import algorand_constants as AC
+    from tealer.utils import teal_enums as TE
+    from tealer.analyses.dataflow.transaction_context import int_fields, txn_types, addr_fields, fee_field
+    from tealer.detectors import all_detectors
+    from tealer.detectors.abstract_detector import AbstractDetector
+    nat_list = lambda xs: "[" + ", ".join(str(int(x.value) if hasattr(x, 'value') else int(x)) for x in xs) + "]"
+    dets = sorted((d.NAME, str(d.TYPE)) for n, d in vars(all_detectors).items() if inspect.isclass(d) and issubclass(d, AbstractDetector) and d is not AbstractDetector)
+    out = ["/- REGENERATED on every run by harness/extract.py from /repo (do not edit). -/",
+           "namespace Tealer.Generated", "",
+           f"def MAX_GROUP_SIZE : Nat := {AC.MAX_GROUP_SIZE}",
+           f"def MAX_UINT64 : Nat := {AC.MAX_UINT64}",
+           f"def MAX_TRANSACTION_COST : Nat := {AC.MAX_TRANSACTION_COST}",
+           f"def ZERO_ADDRESS : String := {lean_str(AC.ZERO_ADDRESS)}",
+           f"def ALL_TRANSACTION_TYPES : List Nat := {nat_list(TE.ALL_TRANSACTION_TYPES)}",
+           f"def APPLICATION_TRANSACTION_TYPES : List Nat := {nat_list(TE.APPLICATION_TRANSACTION_TYPES)}",
+           f"def TYPEENUM_TRANSACTION_TYPES : List Nat := {nat_list(TE.TYPEENUM_TRANSACTION_TYPES)}",
+           f"def sizesU : List Nat := {nat_list(int_fields.universal_sets[int_fields.group_size_key])}",
+           f"def indicesU : List Nat := {nat_list(int_fields.universal_sets[int_fields.group_index_key])}",
+           f"def txnTypeU : List Nat := {nat_list(txn_types.universal_sets[txn_types.transaction_type_key])}",
+           f"def oncompletionTable : List (Nat × Nat) := [" + ", ".join(f"({i}, {int(TE.oncompletion_to_tealer_type(i).value)})" for i in range(6)) + "]",
+           f"def typeEnumTable : List (Nat × Nat) := [" + ", ".join(f"({i}, {int(TE.transaction_type_to_tealer_type(i).value)})" for i in range(1, 7)) + "]",
+           f"def oncompletionNames : List (String × Nat) := [" + ", ".join(f"({lean_str(n)}, {int(TE.oncompletion_to_tealer_type(n).value)})" for n in ["NoOp", "OptIn", "CloseOut", "ClearState", "UpdateApplication", "DeleteApplication"]) + "]",
+           f"def typeEnumNames : List (String × Nat) := [" + ", ".join(f"({lean_str(n)}, {int(TE.transaction_type_to_tealer_type(n).value)})" for n in ["pay", "keyreg", "acfg", "axfer", "afrz", "appl"]) + "]",
+           f"def addrMarkers : List String := [{lean_str(addr_fields.ANY_ADDRESS)}, {lean_str(addr_fields.NO_ADDRESS)}, {lean_str(addr_fields.SOME_ADDRESS)}, {lean_str(addr_fields.CREATOR_ADDRESS)}]",
+           f"def addrBaseKeys : List String := [" + ", ".join(lean_str(k) for k in addr_fields.AddrFields.BASE_KEYS) + "]",
+           f"def feeBaseKeys : List String := [" + ", ".join(lean_str(k) for k in fee_field.FeeField.BASE_KEYS) + "]",
+           f"def intBaseKeys : List String := [" + ", ".join(lean_str(k) for k in int_fields.GroupIndices.BASE_KEYS) + "]",
+           f"def detectors : List (String × String) := [" + ", ".join(f"({lean_str(n)}, {lean_str(t)})" for n, t in dets) + "]",
+           "", "end Tealer.Generated", ""]
+    return "\n".join(out)
+
+
+# ---------------------------------------------------------------------------------------------
+# AST translator for the leaf decision functions
+
+class Untranslatable(Exception):
+    pass
+
+
+CMP_CLASSES = {'Eq': '.eq', 'Neq': '.neq', 'Less': '.lt', 'LessE': '.le', 'Greater': '.gt', 'GreaterE': '.ge'}
+
+
+class FeeTranslator:
+    """FeeField._union / _intersection / _get_asserted_max_value  ->  Lean over the structure FeeValue"""
+    def __init__(self):
+        self.consts = {}
+
+    def expr(self, e):
+        if isinstance(e, ast.BoolOp):
+            op = ' && ' if isinstance(e.op, ast.And) else ' || '
+            return '(' + op.join(self.expr(v) for v in e.values) + ')'
+        if isinstance(e, ast.UnaryOp) and isinstance(e.op, ast.Not):
+            return f"(!{self.expr(e.operand)})"
+        if isinstance(e, ast.Attribute) and isinstance(e.value, ast.Name):
+            fld = {'is_unknown': 'isUnknown', 'value': 'value'}.get(e.attr)
+            if fld is None: raise Untranslatable(ast.dump(e))
+            return f"{e.value.id}.{fld}"
+        if isinstance(e, ast.Compare) and len(e.ops) == 1:
+            l, r = self.expr(e.left), self.expr(e.comparators[0])
+            o = {ast.Gt: '>', ast.Lt: '<', ast.GtE: '≥', ast.LtE: '≤', ast.Eq: '==', ast.NotEq: '!='}.get(type(e.ops[0]))
+            if o is None: raise Untranslatable(ast.dump(e))
+            return f"(decide ({l} {o} {r}))" if o not in ('==', '!=') else f"({l} {o} {r})"
+        if isinstance(e, ast.Name):
+            if e.id in ('MAX_TRANSACTION_COST', 'MAX_UINT64'): return f"Tealer.Generated.{e.id}"
+            return e.id
+        if isinstance(e, ast.Constant) and isinstance(e.value, (int, bool)):
+            return str(e.value).lower() if isinstance(e.value, bool) else str(e.value)
+        if isinstance(e, ast.IfExp):
+            return f"(if {self.expr(e.test)} then {self.expr(e.body)} else {self.expr(e.orelse)})"
+        if isinstance(e, ast.Call) and isinstance(e.func, ast.Name) and e.func.id == 'FeeValue':
+            kw = {k.arg: self.expr(k.value) for k in e.keywords}
+            unknown = kw.get('is_unknown', 'false')
+            value = kw.get('value', 'Tealer.Generated.MAX_UINT64')
+            return f"({{ isUnknown := {unknown}, value := {value} }} : GFeeValue)"
+        if isinstance(e, ast.Call) and isinstance(e.func, ast.Name) and e.func.id == 'max' and len(e.args) == 2:
+            return f"(max {self.expr(e.args[0])} {self.expr(e.args[1])})"
+        if isinstance(e, ast.BinOp) and isinstance(e.op, ast.Sub):
+            return f"({self.expr(e.left)} - {self.expr(e.right)})"
+        if isinstance(e, ast.Tuple):
+            return "(" + ", ".join(self.expr(x) for x in e.elts) + ")"
+        if isinstance(e, ast.Call) and isinstance(e.func, ast.Name) and e.func.id == 'isinstance':
+            cls = e.args[1].id if isinstance(e.args[1], ast.Name) else None
+            if cls in CMP_CLASSES and isinstance(e.args[0], ast.Name):
+                return f"({e.args[0].id} == {CMP_CLASSES[cls]})"
+        raise Untranslatable(ast.dump(e)[:200])
+
+    def body(self, stmts, fallthrough=None):
+        """sequence of `if ...: return X` / `return X` statements -> nested if-then-else"""
+        if not stmts:
+            if fallthrough is None: raise Untranslatable("function may fall off its end")
+            return fallthrough
+        s = stmts[0]
+        if isinstance(s, ast.Expr) and isinstance(s.value, ast.Constant):   # docstring
+            return self.body(stmts[1:], fallthrough)
+        if isinstance(s, ast.Return):
+            return self.expr(s.value)
+        if isinstance(s, ast.If):
+            rest = self.body(stmts[1:], fallthrough) if len(stmts) > 1 or fallthrough is not None else None
+            els = self.body(s.orelse, rest) if s.orelse else rest
+            if els is None: raise Untranslatable("if without else at the end")
+            return f"(if {self.expr(s.test)} then {self.body(s.body, rest)} else {els})"
+        raise Untranslatable(ast.dump(s)[:200])
+
+
+def gen_leaf():
+    from tealer.analyses.dataflow.transaction_context import fee_field
+    errors = []
+    out = ["/- REGENERATED on every run by harness/extract.py: leaf decision functions translated from the Python AST of /repo. -/",
+           "import TealerModel.Syntax", "import TealerModel.Generated.Consts", "namespace Tealer.Generated", "",
+           "structure GFeeValue where", "  isUnknown : Bool", "  value : Nat", "deriving DecidableEq, Repr", ""]
+    tr = FeeTranslator()
+    for name, lean_name, params in (('_union', 'feeUnion', '(a b : GFeeValue) : GFeeValue'),
+                                    ('_intersection', 'feeInter', '(a b : GFeeValue) : GFeeValue'),
+                                    ('_get_asserted_max_value', 'feeAssertedMax', '(comparison_ins : Cmp) (compared_value : GFeeValue) : GFeeValue × GFeeValue')):
+        try:
+            fn = getattr(fee_field.FeeField, name)
+            src = inspect.getsource(fn)
+            import textwrap
+            tree = ast.parse(textwrap.dedent(src)).body[0]
+            body = tr.body(tree.body)
+            out += [f"/-- translated from fee_field.FeeField.{name} -/", f"def {lean_name} {params} :=", f"  {body}", ""]
+        except Untranslatable as e:
+            errors.append(f"FeeField.{name}: {e}")
+            out += [f"-- FeeField.{name} could not be translated: {e}", ""]
+    out += ["end Tealer.Generated", ""]
+    return "\n".join(out), errors
+
 
 def regenerate():
-    return {'errors': [], 'files': []}
+    res = {'errors': [], 'files': [], 'changed': []}
+    try:
+        txt, rows, errs = gen_optable()
+        res['errors'] += errs
+        if write_if_changed(os.path.join(GEN, 'OpTable.lean'), txt): res['changed'].append('OpTable.lean')
+        res['op_rows'] = len(rows)
+    except Exception as e:  # noqa
+        res['errors'].append(f"OpTable: {type(e).__name__}: {e}")
+    try:
+        if write_if_changed(os.path.join(GEN, 'Consts.lean'), gen_consts()): res['changed'].append('Consts.lean')
+    except Exception as e:  # noqa
+        res['errors'].append(f"Consts: {type(e).__name__}: {e}")
+    try:
+        txt, errs = gen_leaf()
+        res['errors'] += errs
+        if write_if_changed(os.path.join(GEN, 'Leaf.lean'), txt): res['changed'].append('Leaf.lean')
+    except Exception as e:  # noqa
+        res['errors'].append(f"Leaf: {type(e).__name__}: {e}")
+    return res
+
+
+if __name__ == '__main__':
+    print(regenerate())
